@@ -27,14 +27,19 @@ type NodeCopier interface {
 // document provided will be where the new node will be attached. This can be
 // the same document, but it must not be nil.
 func DeepCopy(node Node, document *Document) Node {
+	return deepCopyInFamily(node, document, nil)
+}
+
+// deepCopyInFamily is DeepCopy for a node that is part of family. Husband, wife
+// and child nodes can only be created for a family so they cannot be copied on
+// their own.
+func deepCopyInFamily(node Node, document *Document, family *FamilyNode) Node {
 	if IsNil(node) {
 		return nil
 	}
 
 	// We must track the last family seen for nodes that require a family. For
 	// example, husband, wife and child nodes.
-	var family *FamilyNode
-
 	return Filter(node, document, func(node Node) (newNode Node, traverseChildren bool) {
 		if fam, ok := node.(*FamilyNode); ok {
 			family = fam
